@@ -83,6 +83,17 @@ def r1(ctx):
         # for i in range(n): grp[str(i)]
         idx = [n for n in walk_own(rloop) if isinstance(n, ast.Subscript) and U(n.slice).replace(" ", "") == f"str({U(rloop.target)})"]
         order = "numeric" if idx and len(it.args) == 1 else None
+        if order == "numeric":
+            # how many groups: the writer makes one group per ADDED sample and stores the declared capacity as `n_thetas`; only the number of
+            # groups present is right for a partially filled holder (which save_h5 accepts)
+            grp_ = U(idx[0].value)
+            bound = U(inline(it.args[0], env)).replace(" ", "")
+            if bound not in (f"len({grp_})", f"len({grp_}.keys())", f"len(list({grp_}.keys()))", f"len(list({grp_}))"):
+                if "n_thetas" in bound or "attrs" in bound:
+                    ctx.bad("R1", "core.ThetaHolder.load_h5<->save_h5::sample-count", f"the reader visits groups 0..{bound}-1, the stored capacity, while the writer creates one group per "
+                            f"added sample: a holder saved before it is full (save_h5 refuses only an empty one) does not reload")
+                else:
+                    raise AnalysisError(f"ThetaHolder.load_h5: the per-sample loop runs over range({bound}); whether that is the number of stored groups is not decided")
     elif isinstance(it, ast.Name) and any(isinstance(n, ast.Assign) and len(n.targets) == 1 and U(n.targets[0]) == it.id and isinstance(n.value, (ast.ListComp, ast.List, ast.Call))
                                           and not (isinstance(n.value, ast.Subscript)) for n in walk_own(lf.node)) \
             and not any(isinstance(n, ast.Assign) and U(n.targets[0]) == it.id and isinstance(n.value, ast.Subscript) for n in walk_own(lf.node)):
